@@ -191,6 +191,10 @@ def judge_c02(rec):
         out.append(V(what, '%s:%s' % (what, where), msg))
 
     fut = fin['future']
+    early = rec.get('early_future')
+    if early is not None and not facts['harness_cancel'] and early != fut:
+        # a waiter who asked for the future before the run holds the same outcome as one who asks afterwards
+        bad('early-future-differs', 'the future handed out before the run ended %s, the one handed out afterwards %s' % (early, fut))
     if state == 'finished':
         if fut != ['result', fin['outputs']]:
             bad('future-mismatch', 'FINISHED but future is %s, outputs %s' % (fut, fin['outputs']))
